@@ -71,7 +71,7 @@ def draw_config(rng: random.Random, prop: str) -> dict:
         cfg['species_mode'] = 'first_k'
         cfg['max_files'] = rng.randint(1, 4)
         cfg['max_rows'] = rng.randint(2, 6)
-        cfg['layout'] = rng.choices(['single', 'assoc'], [0.8, 0.2])[0]
+        cfg['layout'] = rng.choices(['single', 'assoc'], [0.65, 0.35])[0]
         w.update(add_invalid=6, merge_refused=2, merge=1, close=3, open_a=3, fsck=1.5,
                  merge_faulted=1.5, save=0)
         if rng.random() < 0.85:
@@ -588,8 +588,17 @@ class Gen:
             # before the first successful addition the rejected trajectory may use identifiers
             # differently from the ones that follow: it must not decide anything
             ident = f.ident if f.exists else rng.choice([None, True, False])
+            if first and not f.assoc and rng.random() < 0.4:
+                # nothing is fixed yet: the rejected first trajectory may even have other field sets
+                pool = [x for x in G.EXTRA_SETS if x not in ('emissions', 'vx_wide')]
+                fs = rng.sample(pool, rng.randint(0, 2))
             spec = self.traj_spec(gid, first_of_file=first, fs=fs, ident=ident)
-            spec['set_none'] = [rng.choice(G.required_fields(fs))]
+            cand = G.required_fields(fs)
+            assoc_fs = [x for _a, lst in f.assoc for x in lst]
+            assoc_req = [fld for x in assoc_fs for fld, _d, _t, req in G.FIELDS[x] if req]
+            if assoc_req and rng.random() < 0.5:
+                cand = assoc_req          # a required value that lives in an associated file
+            spec['set_none'] = [rng.choice(cand)]
         elif kind == 'extra_fieldset':
             avail = [x for x in G.EXTRA_SETS if x not in fs]
             if not avail:
